@@ -52,7 +52,8 @@ def run(tier):
     # (4) failing calls: the fault corpus of C20
     fc = corpus.cached(f"faults_{tier}_{common.seed()}", lambda: faultruns.build_fault_corpus(tier))
     ft = [e["F"] for e in fc["experiments"] if "F" in e and e["F"]["events"][-1]["ev"] == "raise"]
-    ft += [t for t in fc["extra"] if t["events"][-1]["ev"] == "raise" and t["hdr"]["fault"]["kind"] == "wrong_front_end"]
+    ft += [t for t in fc["extra"] if t["events"][-1]["ev"] == "raise"
+           and t["hdr"]["fault"]["kind"] in ("wrong_front_end", "invalid_argument")]
     views = [runs.tlc_view(t) for t in ft]
     acc3, fail3, res3 = tracecheck.validate("TraceTiccLoop", views, {"C19"}, spec="TraceSpec",
                                             extra_constants={"KnownDeviations": "{}", "FixedCode": "TRUE", "Configs": "{}"})
